@@ -40,7 +40,7 @@ func counted(e *env, c *srcCount, it fp.Iterator[int]) fp.Iterator[int] {
 type isrcKind struct {
 	name      string
 	unbounded bool
-	stream    func(i int) int                     // unbounded: the i-th element
+	stream    func(i int) int                           // unbounded: the i-th element
 	mk        func(e *env, data []int) fp.Iterator[int] // the library/own iterator before counting
 }
 
@@ -119,6 +119,7 @@ func streamPrefix(f func(int) int, n int) []int {
 
 // tap is the checking pass-through placed at the output of a stage in wrapped mode.
 type tap struct {
+	name        string
 	e           *env
 	in          fp.Iterator[int]
 	expect      []int
@@ -152,6 +153,9 @@ func (t *tap) iter() fp.Iterator[int] {
 		t.pending = 1
 		h := t.in.HasNext()
 		t.pending = 0
+		if t.e.x.Recording() {
+			t.e.x.Logf("    %s.HasNext -> %v", t.name, h)
+		}
 		if want := t.pulls < len(t.expect); h != want && t.bad == "" {
 			t.bad = fmt.Sprintf("HasNext after %d elements = %v, reference %v (reference output %v)", t.pulls, h, want, t.expect)
 		}
@@ -164,6 +168,9 @@ func (t *tap) iter() fp.Iterator[int] {
 		t.pending = 2
 		v := t.in.Next()
 		t.pending = 0
+		if t.e.x.Recording() {
+			t.e.x.Logf("    %s.Next -> %d", t.name, v)
+		}
 		if t.pulls < len(t.expect) && v != t.expect[t.pulls] && t.bad == "" {
 			t.bad = fmt.Sprintf("element #%d = %d, reference %d (reference output %v)", t.pulls, v, t.expect[t.pulls], t.expect)
 		}
@@ -279,7 +286,7 @@ func (p *ipipe) run(x *mc.X, sk isrcKind, data []int, outs [][]int, d int, h boo
 		for i, s := range p.stages {
 			it = s.build(e, &cbs[i], it)
 			if wrapped {
-				taps[i] = &tap{e: e, in: it, expect: outs[i]}
+				taps[i] = &tap{name: s.label, e: e, in: it, expect: outs[i]}
 				it = taps[i].iter()
 			}
 		}
@@ -449,8 +456,20 @@ func short8(a []int) string {
 // It reports whether the consumer was answered (false: legitimate non-termination on an
 // unbounded source).
 func (p *ipipe) check(x *mc.X, sk isrcKind, data []int, outs [][]int, d int, h bool) bool {
-	dr := p.run(x, sk, data, outs, d, h, false)
+	var dr irunResult
+	// The calls of demand (d,h) are a prefix of the calls of every larger demand, and a
+	// multi-stage direct run only yields answers (no per-stage counts): on finite sources the
+	// largest demand covers the direct runs of all smaller ones.
+	if sk.unbounded || p.term != nil || len(p.stages) == 1 || (h && d == len(outs[len(outs)-1])+1) {
+		dr = p.run(x, sk, data, outs, d, h, false)
+	}
+	if x.Recording() {
+		x.Logf("  demand d=%d extraHasNext=%v, wrapped run:", d, h)
+	}
 	wr := p.run(x, sk, data, outs, d, h, true)
+	if x.Recording() {
+		x.Logf("  -> direct: %v, wrapped: %v (source pulls %d)", dr.f, wr.f, wr.srcPulls)
+	}
 	f := dr.f
 	if f != nil {
 		if f.culprit == "" && wr.f != nil {
